@@ -22,3 +22,12 @@ Theorem C03_run : C03_run_stmt.
 Proof. exact C03_run_proof. Qed.
 Print Assumptions C03_run.
 
+(* the boolean monitor that judges implementation steps for this property is passed by every
+   step of the model (so the monitor demands nothing the theorems do not) *)
+From NasimV Require Import Monitors.
+From NasimV.proofs Require Import PMonitors.
+Theorem monitor_C03_sound :
+  forall sc st a k, wf_scenario sc = true -> wf_state sc st = true -> act_ok sc a ->
+    ok_C03 sc (model_rec sc st a k) = true.
+Proof. intros sc st a k WF WS A. exact (model_passes_C03 sc st a k WF WS A). Qed.
+Print Assumptions monitor_C03_sound.
